@@ -1,5 +1,5 @@
 // auto-generated: "lalrpop 0.23.1"
-// sha3: 4f30e4437e5c54c503349a56bba74158a777d4f5469df4939f1dd4511fd1f965
+// sha3: b1e216dadf0c71099336eca74aa0f58eec0f860be9dd0f4e6af320fc2ca6e3d2
 #[allow(unused_extern_crates)]
 extern crate lalrpop_util as __lalrpop_util;
 #[allow(unused_imports)]
@@ -641,8 +641,7 @@ fn __action1<
     (_, __0, _): (usize, &'input str, usize),
 ) -> String
 {
-    { /* } , ; */ let v = vec![(1, 2), (3, 4)]; // }
- v[1].0.to_string() }
+    { fn f<'a>(x: &'a str) -> &'a str { x } f("q").to_string() }
 }
 
 #[allow(unused_variables)]
@@ -654,7 +653,7 @@ fn __action2<
     (_, __0, _): (usize, &'input str, usize),
 ) -> String
 {
-    "".to_string()
+    r##"}"##.to_string()
 }
 
 #[allow(unused_variables)]
@@ -666,7 +665,7 @@ fn __action3<
     (_, __0, _): (usize, &'input str, usize),
 ) -> String
 {
-    format!("{}{}", 'é'.to_string(), { fn f<'a>(x: &'a str) -> &'a str { x } f("q").to_string() })
+    { let r = 7; let t = (r, 1); /* /* nested , */ ; */ (t.0 / t.1).to_string() }
 }
 
 #[allow(unused_variables)]
@@ -678,7 +677,7 @@ fn __action4<
     (_, __0, _): (usize, &'input str, usize),
 ) -> String
 {
-    r#""'}\"#.to_string()
+    r##"\("##.to_string()
 }
 
 #[allow(unused_variables)]
@@ -690,7 +689,7 @@ fn __action5<
     (_, __0, _): (usize, &'input str, usize),
 ) -> String
 {
-    r"}'".to_string()
+    '/'.to_string()
 }
 
 #[allow(unused_variables)]
@@ -702,7 +701,7 @@ fn __action6<
     (_, __0, _): (usize, &'input str, usize),
 ) -> String
 {
-    "[ ,//,".to_string()
+    "r#)[\u{7d}".to_string()
 }
 
 #[allow(unused_variables)]
@@ -714,7 +713,7 @@ fn __action7<
     (_, __0, _): (usize, &'input str, usize),
 ) -> String
 {
-    match ({ let r = 7; let t = (r, 1); /* /* nested , */ ; */ (t.0 / t.1).to_string() }, [r"''{,'".to_string(), "{=>é//)".to_string()].concat()) { (a, b) => { let mut s = a; s.push_str(&b); s } }
+    "\'".to_string()
 }
 
 #[allow(unused_variables)]
@@ -726,8 +725,7 @@ fn __action8<
     (_, __0, _): (usize, &'input str, usize),
 ) -> String
 {
-    { /* } , ; */ let v = vec![(1, 2), (3, 4)]; // }
- v[1].0.to_string() }
+    { let r#type = [1, 2, 3]; r#type[(0 + 1)].to_string() }
 }
 
 #[allow(clippy::type_complexity, dead_code)]
